@@ -44,7 +44,10 @@ def run(ctx):
             ev = np.concatenate(S["eval_log"]) if S["eval_log"] else np.array([], dtype=int)
             finite_seen = bool(len(ev)) and bool(np.any(np.isfinite(S["ll_lib"][ev])))
             nonfinite_seen = bool(len(ev)) and bool(np.any(~np.isfinite(S["ll_lib"][ev])))
-            if not must_raise and S["inj_kind"] != "neg-inf":
+            over_budget = (opts.get("max_prior_samples") or 0) > pb.N      # a budget beyond the library may be refused
+            if over_budget:
+                ctx.count("raised_budget_beyond_library")
+            if not must_raise and S["inj_kind"] != "neg-inf" and not over_budget:
                 ctx.exception(S["raised"], "iterative_rejection_sample raised on a request the library can serve", desc,
                               key="unexpected-raise")
             continue
